@@ -108,6 +108,57 @@ def oracle(res, cfg, o, rng, limit):
             al = optree.all_leaves(tree, **kw)
             if al != all(optree.tree_is_leaf(x, **kw) for x in tree):
                 res.fail('all_leaves differs from every element being a leaf', case)
+        reductions(res, case, tree, ls, kw, rng)
+
+
+_MISSING = object()
+
+
+def reductions(res, case, tree, ls, kw, rng):
+    """tree_reduce / tree_sum / tree_max / tree_min / tree_all / tree_any under the SAME options equal
+    the Python fold over the leaves those options give (leaves are arbitrary objects: the folds are
+    made order- and identity-sensitive through the function / key they are given)"""
+    def same(a, b):
+        return a is b or (type(a) is type(b) and a == b)
+    r = attempt(lambda: optree.tree_reduce(lambda acc, x: acc + [x], tree, [], **kw))
+    if r[0] != 0 or ident_list(r[1]) != ident_list(ls):
+        res.fail('tree_reduce with an initial value does not fold over the leaves of tree_leaves (same options)', case, r)
+    if ls:
+        r = attempt(lambda: optree.tree_reduce(lambda a, x: (a, x), tree, **kw))
+        want = functools.reduce(lambda a, x: (a, x), ls)
+        if r[0] != 0 or not _same_nest(r[1], want):
+            res.fail('tree_reduce without an initial value differs from functools.reduce over tree_leaves (same options)', case)
+    # a pseudo-random ranking of the leaf objects, so that max / min are neither first nor last by chance
+    rank = {}
+    for x in ls:
+        rank.setdefault(id(x), rng.random())
+    key = lambda x: rank.get(id(x), -1.0)            # noqa: E731
+    for name, fn, py in (('tree_max', optree.tree_max, max), ('tree_min', optree.tree_min, min)):
+        r = attempt(lambda: fn(tree, key=key, default=_MISSING, **kw))
+        want = py(ls, key=key, default=_MISSING)
+        if r[0] != 0 or r[1] is not want:
+            res.fail(f'{name} differs from the Python fold over tree_leaves (same options)', case, f'{r} want={want!r}')
+    for name, fn, py in (('tree_all', optree.tree_all, all), ('tree_any', optree.tree_any, any)):
+        r = attempt(lambda: fn(tree, **kw))
+        w = attempt(lambda: py(ls))
+        if r[0] != w[0] or (r[0] == 0 and r[1] != w[1]):
+            res.fail(f'{name} differs from the Python fold over tree_leaves (same options)', case, f'{r} want={w}')
+    if ls and all(type(x) in (int, float) for x in ls):
+        r = attempt(lambda: optree.tree_sum(tree, **kw))
+        if r[0] != 0 or r[1] != sum(ls):
+            res.fail('tree_sum differs from sum over tree_leaves (same options)', case, r)
+    r = attempt(lambda: optree.tree_sum(tree, start=(), **kw)) if all(type(x) is tuple for x in ls) else None
+    if r is not None and (r[0] != 0 or r[1] != sum(ls, ())):
+        res.fail('tree_sum with a start value differs from sum over tree_leaves (same options)', case, r)
+
+
+def _same_nest(a, b):
+    # left-nested pairs built by the fold: compare by identity at the leaves, iteratively
+    while type(a) is tuple and type(b) is tuple and len(a) == 2 and len(b) == 2:
+        if a[1] is not b[1]:
+            return False
+        a, b = a[0], b[0]
+    return a is b
 
 
 def _replace_leaf_by_none(o):
